@@ -25,6 +25,9 @@ TREES = {
     "defaults": T(B("A", B("Bc", L("Cd", d=True), L("X"), d=True), L("Y")), L("Z")),
     # CONFigure-like: anonymous default leaf beside a default branch
     "anon": T(B("CONF", L("", d=True), B("SCAL", L("VOLT"), L("CURR"), d=True)), L("*CLS")),
+    # the same with the default branch listed before the anonymous default leaf, and a nested default leaf elsewhere
+    "anon2": T(B("CONF", B("SCAL", L("VOLT"), L("CURR"), d=True), L("", d=True)),
+               B("MEAS", L("X"), B("VOLT", L("DC", d=True), L("AC"), d=True)), L("*CLS")),
     # numeric-suffixed siblings
     "suffix": T(B("OUTP", L("X")), B("OUTP2", L("X"), L("Y")), B("OUTP10", L("X", d=True)), L("CH1"), L("CH2")),
     # default leaf listed last; same name at two levels
@@ -334,7 +337,9 @@ def c10_units(th):
          U(["Bq"], query=True, h=H(items=("1", "'a;b'", "#13x,y"))),
          U(["GRP"], query=True, h=H(hdr="GRP:Y", items=("42",))),
          U(["*OPC"], query=True, h=H(items=('"q""r"', "-2.5"))),
-         U(["GRP", "X"], query=True, h=H(hdr="X", items=("ON", "OFF")))]
+         U(["GRP", "X"], query=True, h=H(hdr="X", items=("ON", "OFF"))),
+         U(["Bq"], query=True, h=H(items=("#12x;",))),          # payload ending in the unit separator byte
+         U(["GRP"], query=True, h=H(items=("#11,", "#11\n")))]   # ... in the data separator / terminator byte
     e = [U(["A"]), U(["GRP", "X"], data=[DATA["str"]], h=H(pulls=["req"])), U(["*OPC"])]
     return q, e
 
